@@ -234,6 +234,21 @@ theorem mach_zehnder_single_photon (φ : ℝ) :
   rw [e0, e1]
   exact PW.MZI.mzi_probabilities φ
 
+/-- … and a photon entering the second port (`|0,1⟩`) leaves through the first / second port with
+probability `cos²(φ/2)` / `sin²(φ/2)` -/
+theorem mach_zehnder_single_photon_second_port (φ : ℝ) :
+    Complex.normSq (mziFull d₀ d₁ φ (1, 0) (0, 1)) = Real.cos (φ / 2) ^ 2 ∧
+    Complex.normSq (mziFull d₀ d₁ φ (0, 1) (0, 1)) = Real.sin (φ / 2) ^ 2 := by
+  have h := mziFull_sector d₀ d₁ φ
+  have e0 : mziFull d₀ d₁ φ (1, 0) (0, 1) = PW.MZI.mzi φ 0 1 := by
+    rw [← (mul_sector_apply d₀ d₁ (mziFull d₀ d₁ φ) (1, 0)).2, h, sector_mul_apply]
+    simp [sector]
+  have e1 : mziFull d₀ d₁ φ (0, 1) (0, 1) = PW.MZI.mzi φ 1 1 := by
+    rw [← (mul_sector_apply d₀ d₁ (mziFull d₀ d₁ φ) (0, 1)).2, h, sector_mul_apply]
+    simp [sector]
+  rw [e0, e1]
+  exact PW.MZI.mzi_probabilities_second_port φ
+
 end machzehnder
 
 end PW.Props.C11
@@ -249,3 +264,4 @@ end PW.Props.C11
 #print axioms PW.Props.C11.phase_shifter_conserves_number
 #print axioms PW.Props.C11.bsU_sector
 #print axioms PW.Props.C11.mach_zehnder_single_photon
+#print axioms PW.Props.C11.mach_zehnder_single_photon_second_port
